@@ -42,7 +42,36 @@ def verify_contract(verifier, cls, prop=None, **kw):
     discharge_all(obs, **kw)
     return dict(status=status, error=err, obligations=obs, time=time.time() - t0,
                 stats=verifier.stats.get((cls.file, cls.qualname)),
-                precondition=precondition_witness(verifier.entry_pcs.get((cls.file, cls.qualname)), kw.get("workdir")))
+                precondition=precondition_witness(verifier.entry_pcs.get((cls.file, cls.qualname)), kw.get("workdir")),
+                normal_exit=exit_witness(verifier.exit_pcs.get((cls.file, cls.qualname)), kw.get("workdir")))
+
+
+def exit_witness(pcs, workdir=None):
+    """Vacuity guard for postconditions: is some normal exit of the function reachable?  'none' (the exploration found no
+    normal exit at all) | 'sat' (a solver produced a model of one normal exit's path condition) | 'unsat' (normal exits
+    were explored but every one is infeasible: the postconditions hold vacuously) | 'unknown'."""
+    if not pcs:
+        return "none"
+    pcs = sorted(pcs, key=len)
+    verdicts = []
+    for pc in pcs[:3]:
+        r = solve.z3_check(pc, 5000, want_model=False, rlimit=400000)
+        v = r.verdict
+        if v == "unknown":
+            res = solve.cli_race(tm.smt_script(pc, produce_models=False), 5, workdir)
+            got = {x.verdict for x in res.values()} - {"unknown"}
+            v = got.pop() if len(got) == 1 else "unknown"
+        if v == "unknown" and any(tm.has_quantifier(a) for a in pc):
+            # quantified hypotheses expanded over lists of length <= 2: a model of the restriction is a model
+            inst = tm.bounded_instance(list(pc), 2)
+            if inst is not None:
+                res = solve.cli_race(tm.smt_script(inst, produce_models=False), 5, workdir)
+                if any(x.verdict == "sat" for x in res.values()):
+                    v = "sat"
+        if v == "sat":
+            return "sat"
+        verdicts.append(v)
+    return "unsat" if len(verdicts) == len(pcs) and all(v == "unsat" for v in verdicts) else "unknown"
 
 
 def precondition_witness(pcs, workdir=None):
